@@ -82,7 +82,13 @@ func (s *Solver) readAnswer() string {
 	select {
 	case a := <-ch:
 		if a.err != nil {
-			panic("solver died: " + a.err.Error())
+			// the solver process is gone (killed under memory pressure, crashed): start a fresh one; the query counts as
+			// undecided, the run goes on and reports it
+			s.cmd.Process.Kill()
+			s.cmd.Wait()
+			s.Restarts++
+			s.start()
+			return "unknown-walltime"
 		}
 		return strings.TrimSpace(a.l)
 	case <-time.After(checkWall):
